@@ -4,3 +4,5 @@ import Props.C04
 #print axioms Bycycle.C04_identities_peak
 #print axioms Bycycle.C04_identities_trough
 #print axioms Bycycle.C04_band_amp_window
+#print axioms Bycycle.C04_generated
+#print axioms Bycycle.C04_generated_row
